@@ -1,7 +1,12 @@
-SPECIFICATION Spec
+SPECIFICATION FairSpec
 CONSTANTS
   N = 3
   Export = FALSE
 INVARIANT Correct
 INVARIANT NeverOtherDevice
 INVARIANT NeverCompressedUnasked
+INVARIANT CandidateSound
+INVARIANT NothingMeansNothing
+PROPERTY Terminates
+PROPERTY StepShape
+INVARIANT BelowStartIrrelevant
